@@ -17,9 +17,9 @@ def shards(tier, seed):
     out = []
     ka = 3 if tier == "quick" else 5
     for L in T.LETTERS:
-        out.append({"name": "naming-" + L, "kind": "naming", "letter": L, "k": ka, "weight": 5, "after_history": L in "CG"})
+        out.append({"name": "naming-" + L, "kind": "naming", "letter": L, "k": ka, "weight": 5, "after_history": L in "CG", "before_history": L in "DA"})
     for L in T.LETTERS:
-        out.append({"name": "shorthand-" + L, "kind": "shorthand", "letter": L, "after_history": L in "CA",
+        out.append({"name": "shorthand-" + L, "kind": "shorthand", "letter": L, "after_history": L in "CA", "before_history": L in "EB",
                     "grids": [[3, 3]] if tier == "quick" else [[4, 4], [6, 2]], "weight": 6})
     out.append({"name": "invert", "kind": "invert", "n": 1000 if tier == "quick" else 5000, "weight": 1})
     return out
@@ -72,22 +72,24 @@ def run(shard, ctx):
         for (kn, ks) in shard["grids"]:
             names = [T.spell(T.LETTERS.index(L), n) for n in range(-kn, kn + 1)]
             for n in names:
-                for sh in T.all_shorthands(ks):
+                shs = T.all_shorthands(ks, mixed=True)
+                shs.sort(key=lambda s_: (hash((n, s_)) & 0xffff))       # order varies per name (memo keys are not warmed in a fixed order)
+                for sh in shs:
                     if (n, sh) in seen:
                         continue
                     seen.add((n, sh))
-                    for up in (True, False):
-                        EL, EP = T.shorthand_apply(n, sh, up)
-                        w = {"note": n, "shorthand": sh, "up": up}
+                    for up in ((True, False, 1, 0, None) if (len(seen) % 5 == 0) else (True, False)):
+                        EL, EP = T.shorthand_apply(n, sh, bool(up))
+                        w = {"note": n, "shorthand": sh, "up": repr(up)}
                         st, r = ctx.call(intervals.from_shorthand, n, sh, up)
                         ok = st == "ok" and T.valid(r)
                         ctx.check("shorthand: result is a valid name", ok, w, "valid name", repr(r))
                         if ok:
                             ctx.check("shorthand: lands on the letter the degree requires", T.li(r) == EL, w,
-                                      T.LETTERS[EL], r, mechanism="letter:" + ("up" if up else "down") + sh[-1])
+                                      T.LETTERS[EL], r, mechanism="letter:" + ("up" if up else "down") + sh[-1] + ("" if isinstance(up, bool) else ":flag-form"))
                             ctx.check("shorthand: exactly major size + sharps - flats semitones away", T.pc(r) == EP,
-                                      w, EP, T.pc(r), mechanism="distance:" + ("up" if up else "down") + sh[-1])
-                        ctx.case(("sh", n, sh, up), nontrivial=sh != "1")
+                                      w, EP, T.pc(r), mechanism="distance:" + ("up" if up else "down") + sh[-1] + ("" if isinstance(up, bool) else ":flag-form"))
+                        ctx.case(("sh", n, sh, repr(up)), nontrivial=sh != "1")
                     # identity only where re-spelling (+-6 normal form) cannot legitimately intervene
                     if len(n) - 1 + len(sh) - 1 <= 5:
                         st, r = ctx.call(intervals.from_shorthand, n, sh, True)
